@@ -1448,7 +1448,7 @@ func gridLayout(context *layoutContext, box_ Box, bottomSpace pr.Float, skipStac
 		rowY := rowsPositions[i]
 		// TODO: Check that page is not empty.
 		if context.overflowsPage(bottomSpace, rowY-skipHeight) {
-			if i == 0 {
+			if i == 0 && !pageIsEmpty {
 				return nil, blockLayout{nil, nil, tree.PageBreak{Break: "any"}, false}
 			}
 			if pageIsEmpty && i-1 <= skipRow {
